@@ -95,6 +95,29 @@ Proof. unfold drop_unsynced. destruct (p_frozen p) as [f|]; [|reflexivity]. dest
 Lemma drop_unsynced_seq p : p_seq (drop_unsynced p) = p_seq p.
 Proof. unfold drop_unsynced. destruct (p_frozen p) as [f|]; [|reflexivity]. destruct (Nat.eqb (j_synced f) 0 && negb (p_fedit p)); reflexivity. Qed.
 
+Lemma pinv_clear_live p : pinv p -> pinv (clear_live p).
+Proof.
+  intros H0. pose proof H0 as [[fs [ls [[Hf Hl] [Hm Hj]]]] [S1 [S2 S3]] Hfe Ha Hi]. unfold clear_live.
+  destruct (j_recs (p_live p)) as [|x [|y r]] eqn:Lr; [exact H0| |exact H0].
+  destruct (Nat.eqb (j_synced (p_live p)) 0) eqn:C; [|exact H0]. apply Nat.eqb_eq in C.
+  pose proof (gchain_le _ _ _ Hl) as Lle.
+  constructor; cbn [p_live p_frozen p_fedit p_fseq p_man p_msynced p_seq p_issued p_acked j_num j_recs j_synced].
+  - exists fs, ls. split; [split|split].
+    + unfold jstart_ok in *. cbn [p_frozen p_live p_fseq j_num]. destruct (p_frozen p); exact Hf.
+    + cbn. exact Lle.
+    + exact Hm.
+    + exact Hj.
+  - cbn. split; [lia|split; assumption].
+  - exact Hfe.
+  - intros b Hb. destruct (Ha b Hb) as [H1|[H1|H1]]; auto. rewrite C in H1. cbn in H1. destruct H1.
+  - intros b [Hb|[[]|Hb]]; apply Hi; auto.
+Qed.
+
+Lemma clear_live_acked p : p_acked (clear_live p) = p_acked p.
+Proof. unfold clear_live. destruct (j_recs (p_live p)) as [|x [|y r]]; try reflexivity. destruct (Nat.eqb (j_synced (p_live p)) 0); reflexivity. Qed.
+Lemma clear_live_seq p : p_seq (clear_live p) = p_seq p.
+Proof. unfold clear_live. destruct (j_recs (p_live p)) as [|x [|y r]]; try reflexivity. destruct (Nat.eqb (j_synced (p_live p)) 0); reflexivity. Qed.
+
 (* every acknowledged batch starts at or below the current sequence number *)
 Lemma pinv_acked_below p a : pinv p -> In a (p_acked p) -> b_seq a <= p_seq p.
 Proof.
@@ -359,6 +382,18 @@ Proof.
   destruct (n =? 0); cbn [p_seq]; lia.
 Qed.
 
+Lemma pre_txn_facts s q : p_seq (pre_txn s q) = p_seq q /\ p_acked (pre_txn s q) = p_acked q.
+Proof. unfold pre_txn. destruct (errored_live s); [split; [apply clear_live_seq|apply clear_live_acked]|split; reflexivity]. Qed.
+
+Lemma finv_pre_txn s : finv s -> finv (both s (pre_txn s)).
+Proof.
+  intros H. pose proof H as [Hp Hm Ha Hs Hu]. apply (finv_both s _ 0 H).
+  - intros p Hpi. unfold pre_txn. destruct (errored_live s); [apply pinv_clear_live|]; exact Hpi.
+  - intros p. rewrite (proj1 (pre_txn_facts s p)). lia.
+  - intros p. left. apply (proj2 (pre_txn_facts s p)).
+  - rewrite !(proj2 (pre_txn_facts s _)). exact Ha.
+Qed.
+
 Theorem finv_step s o : finv s -> finv (fstep s o).
 Proof.
   intros H. pose proof H as [Hp Hm Ha Hs Hu]. destruct o as [o|n whole|n| |n sync| | |o reached| | |n| |reached|freshok]; cbn [fstep].
@@ -389,8 +424,9 @@ Proof.
       * intros p. rewrite (proj1 (DS _)), (proj1 (PS _)). lia.
       * intros p. left. rewrite (proj2 (DS _)), (proj2 (PS _)). reflexivity.
       * rewrite !(proj2 (DS _)), !(proj2 (PS _)). exact Ha.
-    + destruct (no_txn s); [|exact H]. destruct (f_mfail s); [apply finv_fresh; [exact H|reflexivity]|].
-      destruct (f_pend s); [exact H|]. apply finv_commit_files; [exact H|reflexivity].
+    + destruct (no_txn s); [|exact H]. cbv zeta. pose proof (finv_pre_txn s H) as H0. set (s0 := both s (pre_txn s)) in *.
+      destruct (f_mfail s0); [apply finv_fresh; [exact H0|reflexivity]|].
+      destruct (f_pend s0); [exact H0|]. apply finv_commit_files; [exact H0|reflexivity].
     + destruct (f_mfail s); [apply finv_fresh; [exact H|reflexivity]|apply finv_append_edit; auto].
     + apply (finv_both s _ n H).
       * intros p Hpi. apply pinv_step. exact Hpi.
@@ -438,9 +474,10 @@ Proof.
   - exact H.
   - exact H.
   - (* FTxnBegin *)
-    destruct (f_txn s) eqn:T; [exact H|]. destruct (p_frozen (f_m s)); [exact H|].
-    destruct (j_recs (p_live (f_m s))); [|exact H]. destruct (n =? 0); [exact H|].
-    eapply finv_ext; [exact H| | | |]; try reflexivity. cbn. discriminate.
+    cbv zeta. pose proof (finv_pre_txn s H) as H0.
+    destruct (f_txn s) eqn:T; [exact H|]. destruct (p_frozen (f_m (both s (pre_txn s)))); [exact H|].
+    destruct (j_recs (p_live (f_m (both s (pre_txn s))))); [|exact H]. destruct (n =? 0); [exact H|].
+    eapply finv_ext; [exact H0| | | |]; try reflexivity. cbn. discriminate.
   - (* FTxnCommit *)
     destruct (f_txn s) as [[n fl]|] eqn:T; [|exact H].
     destruct (f_mfail s); [apply finv_fresh; [exact H|reflexivity]|].
@@ -558,6 +595,9 @@ Proof. cbn zeta. apply clean_close_is_image. apply (fi_p _ (finv_run ops)). Qed.
 Lemma pstep_acked_incl p o : incl (p_acked p) (p_acked (pstep p o)).
 Proof. destruct (pstep_acked p o) as [->|[n ->]]; [apply incl_refl|apply incl_appl, incl_refl]. Qed.
 
+Lemma fresh_incl s x t g : p_acked (f_p s) = p_acked (f_m s) -> incl (p_acked (f_p s)) (p_acked (f_p (fresh s x t g))).
+Proof. intros Ha. unfold fresh, committed. cbn [f_p]. rewrite collapse_man_acked, Ha. apply pstep_acked_incl. Qed.
+
 Theorem acked_monotone s o : finv s -> incl (p_acked (f_p s)) (p_acked (f_p (fstep s o))).
 Proof.
   intros [Hp Hm Ha Hs Hu].
@@ -573,8 +613,12 @@ Proof.
     + destruct (f_mfail s); [apply Fr|apply Ap].
     + destruct (f_mfail s); [apply incl_refl|apply pstep_acked_incl].
     + eapply incl_tran; [|apply pstep_acked_incl]. unfold pre_drop. destruct (errored_only s); [rewrite drop_unsynced_acked|]; apply incl_refl.
-    + destruct (no_txn s); [|apply incl_refl]. destruct (f_mfail s); [apply Fr|].
-      destruct (f_pend s); [apply incl_refl|apply pstep_acked_incl].
+    + destruct (no_txn s); [|apply incl_refl]. cbv zeta.
+      assert (E0 : p_acked (f_p (both s (pre_txn s))) = p_acked (f_p s)) by apply (proj2 (pre_txn_facts s _)).
+      assert (E1 : p_acked (f_m (both s (pre_txn s))) = p_acked (f_m s)) by apply (proj2 (pre_txn_facts s _)).
+      set (s0 := both s (pre_txn s)) in *. rewrite <- E0.
+      destruct (f_mfail s0); [apply fresh_incl; rewrite E0, E1; exact Ha|].
+      destruct (f_pend s0); [apply incl_refl|apply pstep_acked_incl].
     + destruct (f_mfail s); [apply Fr|apply Ap].
     + apply pstep_acked_incl.
     + unfold restarted. cbn [f_p]. apply pstep_acked_incl.
@@ -586,8 +630,9 @@ Proof.
   - destruct o; try apply incl_refl.
     + destruct (f_mfail s || f_pend s); [apply incl_refl|]. destruct reached; [apply Ap|apply incl_refl].
     + destruct (f_mfail s || f_pend s); [apply incl_refl|]. destruct reached; [apply Ap|apply incl_refl].
-  - destruct (f_txn s); [apply incl_refl|]. destruct (p_frozen (f_m s)); [apply incl_refl|].
-    destruct (j_recs (p_live (f_m s))); [|apply incl_refl]. destruct (n =? 0); apply incl_refl.
+  - cbv zeta. destruct (f_txn s); [apply incl_refl|]. destruct (p_frozen (f_m (both s (pre_txn s)))); [apply incl_refl|].
+    destruct (j_recs (p_live (f_m (both s (pre_txn s))))); [|apply incl_refl]. destruct (n =? 0); [apply incl_refl|].
+    unfold both. cbn [f_p]. rewrite (proj2 (pre_txn_facts s _)). apply incl_refl.
   - destruct (f_txn s) as [[n fl]|]; [|apply incl_refl]. destruct (f_mfail s); [apply Fr|].
     destruct (f_pend s); [apply incl_refl|apply pstep_acked_incl].
   - destruct (f_txn s) as [[n fl]|]; [|apply incl_refl]. destruct (f_mfail s); [apply incl_refl|].
@@ -801,6 +846,31 @@ Proof.
   intros [Gt Gg] E1 E2 E3 Ht. constructor; rewrite ?E1, ?E2, ?E3; auto.
 Qed.
 
+Lemma absent_clear_live p g : absent p g -> absent (clear_live p) g.
+Proof.
+  intros (A1 & A2 & A3 & A4). assert (Habs : absent p g) by (repeat split; assumption). unfold clear_live.
+  destruct (j_recs (p_live p)) as [|x [|y r]]; try exact Habs.
+  destruct (Nat.eqb (j_synced (p_live p)) 0); [|exact Habs].
+  unfold absent; cbn [p_seq p_man p_live p_frozen j_recs]. repeat split; auto.
+Qed.
+
+Lemma ginv_pre_txn s : ginv s -> ginv (both s (pre_txn s)).
+Proof.
+  intros G. apply (ginv_both s _ 0 G).
+  - intros p. rewrite (proj1 (pre_txn_facts s p)). lia.
+  - intros p g Hg. unfold pre_txn. destruct (errored_live s); [apply absent_clear_live|]; exact Hg.
+Qed.
+
+Lemma ginv_freshN s x : ginv s -> is_restart x = false -> ginv (committed s (collapse_man (pstep (f_m s) x)) None (f_gone s)).
+Proof.
+  intros [Gt Gg] Hr. apply ginv_committed. intros g Hin. apply absent_collapse_man, absent_pstep; [apply (Gg g Hin)|exact Hr].
+Qed.
+
+Lemma ginv_filesN s x : ginv s -> is_restart x = false -> ginv (committed s (pstep (f_p s) x) None (f_gone s)).
+Proof.
+  intros [Gt Gg] Hr. apply ginv_committed. intros g Hin. apply absent_pstep; [apply (Gg g Hin)|exact Hr].
+Qed.
+
 Theorem ginv_step s o : finv s -> ginv s -> ginv (fstep s o).
 Proof.
   intros H G. pose proof H as [Hp Hm Ha Hs Hu]. pose proof G as [Gt Gg].
@@ -839,8 +909,9 @@ Proof.
         { cbn [pstep]. match goal with |- context [if ?c then _ else _] => destruct c end; reflexivity. }
         rewrite D, E. lia.
       * intros p g Hg. apply absent_pstep; [|reflexivity]. unfold pre_drop. destruct (errored_only s); [apply absent_drop_unsynced|]; exact Hg.
-    + destruct (no_txn s); [|exact G]. destruct (f_mfail s); [apply FreshN; reflexivity|].
-      destruct (f_pend s); [exact G|apply FilesN; reflexivity].
+    + destruct (no_txn s); [|exact G]. cbv zeta. pose proof (ginv_pre_txn s G) as G0. set (s0 := both s (pre_txn s)) in *.
+      destruct (f_mfail s0); [apply ginv_freshN; [exact G0|reflexivity]|].
+      destruct (f_pend s0); [exact G0|apply ginv_filesN; [exact G0|reflexivity]].
     + destruct (f_mfail s); [apply Fresh; reflexivity|apply App; auto].
     + apply (ginv_both s _ n G); [intros p; reflexivity|]. intros p g Hg. apply absent_pstep; [exact Hg|reflexivity].
     + apply Restart.
@@ -872,10 +943,12 @@ Proof.
       * constructor; cbn [f_p f_m f_txn f_mfail f_gone]; [|exact Gg].
         intros n fl T. destruct (Gt n fl T) as [N0 _]. split; [exact N0|discriminate].
   - (* FTxnBegin *)
-    destruct (f_txn s) eqn:T; [exact G|]. destruct (p_frozen (f_m s)); [exact G|].
-    destruct (j_recs (p_live (f_m s))); [|exact G]. destruct (n =? 0) eqn:En; [exact G|]. apply N.eqb_neq in En.
-    constructor; cbn [f_p f_m f_txn f_mfail f_gone]; [|exact Gg].
-    intros n' fl E. injection E as <- <-. split; [exact En|]. intros _. apply Hs. reflexivity.
+    cbv zeta. pose proof (ginv_pre_txn s G) as [_ Gg0].
+    destruct (f_txn s) eqn:T; [exact G|]. destruct (p_frozen (f_m (both s (pre_txn s)))); [exact G|].
+    destruct (j_recs (p_live (f_m (both s (pre_txn s))))); [|exact G]. destruct (n =? 0) eqn:En; [exact G|]. apply N.eqb_neq in En.
+    constructor; cbn [f_p f_m f_txn f_mfail f_gone]; [|exact Gg0].
+    intros n' fl E. injection E as <- <-. split; [exact En|]. intros _. unfold both. cbn [f_p f_m].
+    rewrite !(proj1 (pre_txn_facts s _)). apply Hs. reflexivity.
   - (* FTxnCommit *)
     destruct (f_txn s) as [[n fl]|] eqn:T; [|exact G].
     destruct (f_mfail s); [apply FreshN; reflexivity|]. destruct (f_pend s); [exact G|apply FilesN; reflexivity].
